@@ -747,8 +747,13 @@ impl Run {
             for v in &unknown {
                 *per_sig.entry(v.signature.clone()).or_insert(0) += 1;
             }
-            for (sig, n) in &per_sig {
-                println!("  unlisted-violation-count signature={sig} cases={n}");
+            for (k, (sig, n)) in per_sig.iter().enumerate() {
+                if k < 60 {
+                    println!("  unlisted-violation-count signature={sig} cases={n}");
+                }
+            }
+            if per_sig.len() > 60 {
+                println!("  ... {} more signatures", per_sig.len() - 60);
             }
             if std::env::var("VERIF_LIST_ALL").is_ok() {
                 for v in &unknown {
@@ -760,6 +765,9 @@ impl Run {
             let _ = std::fs::create_dir_all(&dir);
             for v in &unknown {
                 if !seen.insert(v.signature.clone()) {
+                    continue;
+                }
+                if seen.len() > 25 {
                     continue;
                 }
                 let path = format!("{dir}/{:016x}.json", hash_of(&(&v.signature, &v.family, v.index)));
